@@ -223,6 +223,8 @@ World::World(const Plan& p) : plan(p)
     g_taps.begin_call();
     g_taps.total_stmts = g_taps.total_ticks = g_taps.total_mallocs = 0;
     g_sim_clock = 1600000000 + (int64_t)(p.seed % 100000);
+    clock0 = g_sim_clock;
+    g_clock_reads = 0;
     if (getenv("DJSIM_LOGDUMP") || access("/tmp/DJSIM_LOGDUMP", F_OK) == 0)
         hash_dump_target() = &log;
     log.str("plan");
